@@ -28,6 +28,7 @@ package regprocessor
 //                          and prefixes, recorded as abstract triples for Trace_RegistrarData.
 
 import (
+	"sort"
 	"bytes"
 	"crypto/ed25519"
 	"crypto/sha256"
@@ -92,6 +93,9 @@ var vrdSubnetDefs = map[string]vrdSubnetDef{
 	"x1": {"x1", "10.20.1.0/24", "Prefix_Transport", 8001, prefix.GetLong},
 	"x2": {"x2", "10.20.2.0/24", "Prefix_Transport", 8002, prefix.PostLong},
 	"x3": {"x3", "10.20.3.0/24", "Prefix_Transport", 8003, prefix.HTTPResp},
+	// one CIDR configured for BOTH transports (each entry with its own weight / port / prefix): "every such subnet" counts per transport
+	"ms": {"ms", "10.30.1.0/24", "Min_Transport", 0, 0},
+	"xs": {"xs", "10.30.1.0/24", "Prefix_Transport", 8004, prefix.GetLong},
 }
 
 type vrdW struct {
@@ -106,6 +110,7 @@ var vrdSubnetTable = map[string][]vrdW{
 	"two":   {{"m1", 1}, {"m2", 3}, {"x1", 2}, {"x2", 1}},
 	"zero":  {{"m1", 1}, {"m2", 0}, {"x1", 0}, {"x2", 1}},
 	"three": {{"m1", 2}, {"m2", 0}, {"m3", 1}, {"x1", 1}, {"x2", 1}, {"x3", 2}},
+	"shared": {{"ms", 1}, {"m1", 1}, {"xs", 1}, {"x1", 1}},
 }
 
 func vrdSubnets(cfg string) []Subnet {
@@ -121,14 +126,28 @@ func vrdSubnets(cfg string) []Subnet {
 	return out
 }
 
-func vrdSubnetOf(ip net.IP) string {
-	for n, d := range vrdSubnetDefs {
+// vrdSubnetOf names the override subnet an address lies in; where one CIDR is configured for both transports the entry of the
+// transport asked for (tp = "Min_Transport" | "Prefix_Transport") is preferred
+func vrdSubnetOf(ip net.IP, tp string) string {
+	names := make([]string, 0, len(vrdSubnetDefs))
+	for n := range vrdSubnetDefs {
+		names = append(names, n)
+	}
+	sort.Strings(names)
+	found := ""
+	for _, n := range names {
+		d := vrdSubnetDefs[n]
 		_, nw, _ := net.ParseCIDR(d.cidr)
 		if nw.Contains(ip) {
-			return n
+			if d.transport == tp {
+				return n
+			}
+			if found == "" {
+				found = n
+			}
 		}
 	}
-	return ""
+	return found
 }
 
 var vrdExcl = map[string][]string{"none": {}, "orig": {"192.122.190.0/24"}, "other": {"203.0.113.0/24"}}
@@ -453,7 +472,7 @@ func (a *vrdAbs) addr(ip net.IP, v6 bool) string {
 		if ip.Equal(net.ParseIP("6.6.6.6")) {
 			return "forged"
 		}
-		if n := vrdSubnetOf(ip); n != "" {
+		if n := vrdSubnetOf(ip, map[string]string{"min": "Min_Transport", "prefix": "Prefix_Transport"}[a.q.T]); n != "" {
 			return "sub:" + n
 		}
 	} else {
@@ -481,7 +500,7 @@ func (a *vrdAbs) params(p *anypb.Any, v4 net.IP) vrdParams {
 	want, err := prefix.TryFromID(prefix.PrefixID(m.GetPrefixId()))
 	wellFormed := err == nil && bytes.Equal(want.Bytes(), m.GetPrefix()) && m.CustomFlushPolicy != nil && m.GetCustomFlushPolicy() == want.FlushPolicy()
 	if v4 != nil && wellFormed && m.RandomizeDstPort == nil {
-		if n := vrdSubnetOf(v4); n != "" && vrdSubnetDefs[n].transport == "Prefix_Transport" && int32(vrdSubnetDefs[n].pid) == m.GetPrefixId() {
+		if n := vrdSubnetOf(v4, "Prefix_Transport"); n != "" && vrdSubnetDefs[n].transport == "Prefix_Transport" && int32(vrdSubnetDefs[n].pid) == m.GetPrefixId() {
 			return vrdParams{"subnet", n}
 		}
 	}
